@@ -81,25 +81,38 @@ def main(rest):
         return 0
     if rest[0] == "all":
         # every design-phase mutant and every seeded change against its property; results are
-        # written to /verif/selftest_results.json (committed, referenced by DESIGN.md section 6)
-        out = {}
+        # written to /verif/selftest_results.json (committed, referenced by DESIGN.md section 8.4).
+        # `selftest all -j N` runs N of them side by side (each check is itself parallel).
+        import threading
+        from concurrent.futures import ThreadPoolExecutor
+        jobs = 1
+        if "-j" in rest:
+            jobs = int(rest[rest.index("-j") + 1])
+        items = []
         idx = json.load(open(os.path.join(core.VERIF, "mutants", "index.json")))
         for m in idx:
-            res = run_on_mutant(os.path.join(core.VERIF, "mutants", m["id"] + ".diff"), [m["property"]])
-            v = res[m["property"]]
-            out["mutants/" + m["id"]] = {"property": m["property"], "kind": m["kind"], "tests": m["baseline_tests"],
-                                         "rc": v[0], "violations": v[1]}
-            print(f"{m['id']}: rc={v[0]} violations={v[1]}", flush=True)
-            json.dump(out, open(os.path.join(core.VERIF, "selftest_results.json"), "w"), indent=1)
+            items.append(("mutants/" + m["id"], os.path.join(core.VERIF, "mutants", m["id"] + ".diff"), m["property"],
+                          {"property": m["property"], "kind": m["kind"], "tests": m["baseline_tests"]}))
         base = os.path.join(core.VERIF, "seeded")
         for d in sorted(os.listdir(base)):
             meta = json.load(open(os.path.join(base, d, "meta.json")))
-            res = run_on_mutant(os.path.join(base, d, "patch.diff"), [meta["property"]])
-            v = res[meta["property"]]
-            out["seeded/" + d] = {"property": meta["property"], "needs": meta["needs"], "rc": v[0], "violations": v[1],
-                                  "status": meta.get("status", "breaking")}
-            print(f"{d}: rc={v[0]} violations={v[1]}", flush=True)
-            json.dump(out, open(os.path.join(core.VERIF, "selftest_results.json"), "w"), indent=1)
+            items.append(("seeded/" + d, os.path.join(base, d, "patch.diff"), meta["property"],
+                          {"property": meta["property"], "needs": meta["needs"], "status": meta.get("status", "breaking")}))
+        out = {}
+        lock = threading.Lock()
+
+        def one(it):
+            key, patch, prop, info = it
+            res = run_on_mutant(patch, [prop])
+            v = res[prop]
+            with lock:
+                out[key] = dict(info, rc=v[0], violations=v[1])
+                print(f"{key}: rc={v[0]} violations={v[1]}", flush=True)
+                ordered = {k: out[k] for k, _, _, _ in items if k in out}
+                json.dump(ordered, open(os.path.join(core.VERIF, "selftest_results.json"), "w"), indent=1)
+
+        with ThreadPoolExecutor(max_workers=jobs) as ex:
+            list(ex.map(one, items))
         return 0
     print(__doc__)
     return 2
